@@ -23,6 +23,8 @@ DOC = {
  "C20.R2": "session: Reply{tag,to} originate from the Call's tag/to; what/variant/metadata flow unchanged into SerializedMessage; a Reply frame goes to the proxy stored under `to` with the frame's tag and payload",
  "C20.R3": "proxies are spawned only in get_or_spawn_remote_actor, supervised by the session's own cell, inserted under the pid they were asked for; Terminate removes and stops them",
  "C20.R4": "PgJoin / PgLeave: scope and group of the frame flow unchanged into join_scoped / leave_scoped; cells come from get_or_spawn / the proxy map",
+ "C20.R6": "= C19.R2 (framing): every read of a frame payload is bounded by min(len - buf.len(), chunk) computed inside the loop",
+ "C20.R7": "every control_protocol::Actor built from a local cell is behind supports_remoting() (filter upstream of the map, or the true edge for single cells): Join, Leave, the post-auth scans and the pid events agree",
  "C20.R5": "delivery path is inline: every send_serialized of handle_node is executed in handle_node itself (none inside a spawned task); the proxy's handle_serialized and the session's send path spawn nothing",
 }
 
@@ -238,6 +240,51 @@ def r5(run, db):
         run.check(not sp3 and len(enc) == 2 and all(g.in_cycle(c.site) for c in enc), "writer-sequential", "the writer encodes frames sequentially in receive order", "writer task shape changed", g.where())
 
 
+def r6(run, db):
+    """framing: = C19.R2 (each read is bounded by what remains of *this* frame, recomputed per iteration, so a frame never
+    swallows the beginning of the next one -- the per-sender order and content of casts depends on it)"""
+    from . import c19
+    c19.r2(run, db)
+
+
+def r7(run, db):
+    """only actors that support remote messaging are described to the peer: every control_protocol::Actor built from a local
+    cell is behind supports_remoting().  Join and Leave must agree (C20-4): a Leave for a non-remotable cell -- in particular
+    for one of this node's own proxies -- makes the peer drop an unrelated reference that happens to have the same pid."""
+    n = 0
+    for f in db.crate_fns(RC):
+        if "::tests::" in f.id or "ractor_cluster::node::" not in f.id:
+            continue
+        aggs = [(site, st) for site, st in f.aggregates() if (st["rv"].get("adt") or "").endswith("protocol::control::Actor")]
+        if not aggs:
+            continue
+        if f.kind == "closure":
+            # which adapter is this closure given to?
+            for (pf, site, _st) in creation_sites(db, f):
+                users = [c for c in pf.calls() if c.matches(r"Iterator::map$") and any(r["k"] == "agg" and r["stmt"]["rv"].get("def") == f.id for r in pf.origins(c.args[1]))]
+                for u in users:
+                    n += 1
+                    chain = pf.origins(u.args[0], through=lambda cc: 0 if cc.matches(r"Iterator::(map|cloned|copied|inspect|peekable|take|skip)$|IntoIterator>::into_iter$|IntoIterator::into_iter$") else None)
+                    ok = False
+                    for r in chain:
+                        if r["k"] == "call" and r["call"].matches(r"Iterator::filter$"):
+                            for pr in pf.origins(r["call"].args[1]):
+                                g = db.fns.get(pr["stmt"]["rv"].get("def")) if pr["k"] == "agg" else None
+                                if g is not None and any(x.is_("supports_remoting") for x in g.calls()):
+                                    ok = True
+                    run.check(ok, "remotable-only:%s@map#%d" % (pf.id.split("::")[-2] if pf.id.endswith("}") else pf.id.split("::")[-1], [x.bb for x in users].index(u.bb)),
+                              "the cells described to the peer are filtered by supports_remoting() first",
+                              "%s describes local cells to the peer without filtering them by supports_remoting(): e.g. the Leave of one of this node's own proxies is forwarded and the peer removes an unrelated reference with the same pid from the group" % pf.id, u.where())
+        else:
+            for site, st in aggs:
+                n += 1
+                sr = [c for c in f.calls() if c.is_("supports_remoting")]
+                ok = any(true_edge(f, c) and f.edge_dominates(true_edge(f, c), site) for c in sr)
+                run.check(ok, "remotable-only:%s@L%s" % (f.id.split("::")[-2] if f.id.endswith("}") else f.id.split("::")[-1], "agg"), "a single cell is described to the peer only on the true edge of supports_remoting()",
+                          "%s describes a cell to the peer without testing supports_remoting()" % f.id, f.where(st.get("l")))
+    run.anchor("places where local cells are described to the peer", n, 5)
+
+
 Q = ["rc"]
 TH = ["rc", "rcatr"]
-RULES = [{"id": "C20.R%d" % i, "fn": f, "quick": Q, "thorough": TH} for i, f in enumerate([r1, r2, r3, r4, r5], 1)]
+RULES = [{"id": "C20.R%d" % i, "fn": f, "quick": Q, "thorough": TH} for i, f in enumerate([r1, r2, r3, r4, r5, r6, r7], 1)]
